@@ -380,6 +380,26 @@ def _fam_log_barrier(rng, n, spec):
     return f, g, dict(convex=True, wild=True, domain_positive=True)
 
 
+def _fam_qp_inf_region(rng, n, spec):
+    """A convex QP that returns +inf in the half-space a.x > thr (a failed simulation / a hard constraint signalled through the
+    value) while its gradient stays finite everywhere; thr is placed a little beyond the start by make_problem."""
+    A = rand_spd(rng, n, float(spec.get("cond", 30.0)))
+    b = rng.standard_normal(n) * 3
+    a = rng.standard_normal(n)
+    st = {"thr": np.inf}
+    bad = float("nan") if spec["family"] == "qp_nan_region" else float("inf")  # undefined (nan) or forbidden (+inf)
+
+    def f(x):
+        if float(a @ x) > st["thr"]:
+            return bad
+        return float(0.5 * (x @ (A @ x)) - b @ x)
+
+    def g(x):
+        return A @ x - b
+
+    return f, g, dict(convex=False, wild=True, inf_region=dict(a=a, state=st, margin=float(np.exp(rng.uniform(np.log(0.05), np.log(2.0)))), A=A, b=b))
+
+
 def _fam_badly_scaled(rng, n, spec):
     A = rand_spd(rng, n, float(spec.get("cond", 30.0)))
     b = rng.standard_normal(n)
@@ -446,6 +466,8 @@ _FAMILIES = {
     "oscillating": _fam_oscillating,
     "exp_wall": _fam_exp_wall,
     "log_barrier": _fam_log_barrier,
+    "qp_inf_region": _fam_qp_inf_region,
+    "qp_nan_region": _fam_qp_inf_region,
     "badly_scaled": _fam_badly_scaled,
     "quartic": _fam_quartic,
     "sphere": _fam_sphere,
@@ -510,6 +532,12 @@ def make_problem(spec) -> Problem:
     if spec.get("start_scale"):
         # a start so far out that the first (unit-length) step is below half an ulp of the iterate: the first trial point IS x0
         x0 = np.clip(np.where(x0 == 0, 1.0, x0) * float(spec["start_scale"]), lb, ub)
+    if meta.get("inf_region"):
+        # the forbidden half-space lies in the descent direction, a little beyond the start
+        ir = meta["inf_region"]
+        g0 = ir["A"] @ x0 - ir["b"]
+        ir["a"][:] = -g0 / max(float(np.linalg.norm(g0)), 1e-300)
+        ir["state"]["thr"] = float(ir["a"] @ x0) + ir["margin"]
     if meta.get("domain_positive"):
         x0 = np.clip(np.abs(x0) + 0.3, lb, ub)  # start inside the objective's domain whenever the box allows it
     return Problem(dict(spec), n, f, g, lb, ub, x0, meta)
